@@ -6,7 +6,7 @@ PID = "C08"
 RULE = ("texts = a canonical complete entry with its lines shuffled and variables repeated, plus ONE injected fault: a line "
         "without '=', a misspelt / unknown / lower-case / space-padded name, a non-integer size ('+5' '-0' '5 ' '' overflow "
         "'0x10' '1e3'), each of the eleven required variables removed in turn, CRLF line ends, blank lines, a trailing "
-        "unterminated line; non-trivial = the text has a fault or a repeated variable")
+        "unterminated line; plus EVERY sequence of <= 4 (thorough 5) tokens of the line grammar; non-trivial = the text has a fault or a repeated variable")
 FUNCTIONAL = True
 BADINT = ["", " ", "5 ", " 5", "+", "-", "0x10", "1e3", "9223372036854775808", "-9223372036854775809", "12a", "１２", "5\t"]
 OKINT = ["+5", "-0", "007", "-9223372036854775808", "9223372036854775807", "0"]
@@ -88,6 +88,13 @@ def generate(rng, tier):
             j = rng.randint(i, len(texts))
             f = [rng.choice(["nolineq", "BAD=1", "SIZE_PKG=x"]) for _ in range(2)]
             add(texts[:i] + [f[0]] + texts[i:j] + [f[1]] + texts[j:], "two", rep)
+    # small scope, exhaustively: every sequence of <= 4 (thorough 5) tokens of the line grammar (mostly rejected: the error
+    # kind and the line it is reported for are what is compared)
+    import itertools
+    toks = ["PKGNAME=", "x", "\n", "=", "SIZE_PKG=", "1", " ", "COMMENT=", "\r", "BAD"]
+    for L in range(1, (5 if tier == "quick" else 6)):
+        for tup in itertools.product(toks, repeat=L):
+            cases.append(Case("sum.parse", [enc("".join(tup))], meta={"fault": "scope", "rep": False}, tag="scope"))
     for t in ["", "\n", "\n\n", "=", "=x", "PKGNAME=a", "\r\n"]:
         cases.append(Case("sum.parse", [enc(t)], meta={"fault": "tiny", "rep": False}))
     # unusual-but-legal text around a complete entry: a byte-order mark or other invisible character before the first
